@@ -20,6 +20,10 @@ def fast_io():
     gc.freeze()
 
 
+class CallerListMutated(Exception):
+    pass
+
+
 def load(path, **kw):
     """Real loader; returns (cat, None) or (None, exception)."""
     from abacusnbody.data.compaso_halo_catalog import CompaSOHaloCatalog
@@ -29,10 +33,15 @@ def load(path, **kw):
     import contextlib
     import io
 
+    snap = list(kw['fields']) if isinstance(kw.get('fields'), list) else None
     with warnings.catch_warnings(), (contextlib.redirect_stdout(io.StringIO()) if kw.get('verbose') else contextlib.nullcontext()):
         warnings.simplefilter('ignore')
         try:
-            return CompaSOHaloCatalog(path, **kw), None
+            cat = CompaSOHaloCatalog(path, **kw)
+            if snap is not None and list(kw['fields']) != snap:
+                # the caller's list is the caller's: a loader that edits it makes the caller's next load ask for something else
+                return None, CallerListMutated(f"fields list passed by the caller was changed by the load: {snap[:6]} -> {list(kw['fields'])[:6]}")
+            return cat, None
         except Exception as e:  # noqa
             return None, e
         finally:
